@@ -109,6 +109,8 @@ def regenerate():
     notes["to_arg"] = translate_toarg.generate(REPO, os.path.join(COQ, "Gen", "SrcToArg.v"), os.path.join(HARNESS, "fallback"))
     import translate_fromarg
     notes["from_arg"] = translate_fromarg.generate(REPO, os.path.join(COQ, "Gen", "SrcFromArg.v"), os.path.join(HARNESS, "fallback"))
+    import translate_tables
+    notes["tables"] = translate_tables.generate(REPO, os.path.join(COQ, "Gen", "SrcTables.v"), os.path.join(HARNESS, "fallback"))
     import translate_deps
     notes["deps"] = translate_deps.generate(REPO, os.path.join(COQ, "Gen", "SrcDeps.v"), os.path.join(HARNESS, "fallback"))
     return notes
